@@ -1,41 +1,28 @@
 /-
 Helper lemmas for engine `heights` (C15), part 6: a decided instance AT the controller height is the stored highest
-(`TInv`), and a valid decided message at or above the controller height ends up as the stored highest — unless the
-instance was only reloaded from storage (full node).
+(`TInv`), and a valid decided message at or above the controller height ends up as the stored highest — on histories
+without store-write failures (what a failed write did not store cannot be there).
 -/
-import Ssv.Proofs.HeightsLight
+import Ssv.Proofs.HeightsAtTop
 
 namespace Ssv.Heights
 
 def TInv (c : Ctrl) (st : Store) : Prop :=
   ∀ i ∈ c.insts, i.height = c.height → i.decided = true → ∃ a, st.highest = some a ∧ a.inst.height = c.height
 
-theorem saveFound_writes {c : Ctrl} {st : Store} {h : Nat} {m : Msg} {i : Inst} (hf : find c.insts h = some i)
-    (hle : c.height ≤ h) : (saveFound c st h m).highest = some ⟨{ trim i with stopped := false }, m⟩ := by
-  have hih := find_some_height hf
-  unfold saveFound
-  rw [hf]
-  simp only
-  unfold saveInstance
-  have : c.height ≤ i.height := by omega
-  cases c.full <;> simp [this, storeSave]
+/-- no op of the history is a decided message delivered during a store-write failure -/
+def NoStoreFail (ops : List Op) : Prop := ∀ op ∈ ops, ∀ h r root sg ok via, op ≠ .decidedSF h r root sg ok via
 
 theorem TInv.start {c c' : Ctrl} {st : Store} {h : Nat} (inv : CInv c st) (hs : startNewInstance c h = .ok c') :
     TInv c' st := by
-  obtain ⟨hle, hnone, hh, _, hins⟩ := startNewInstance_ok hs
-  have hlt : ∀ x ∈ c.insts, x.height < (newInst h).height := by
-    intro x hx
-    have h1 := inv.top.le x hx
-    have h2 := (find_none_iff.mp hnone) x hx
-    show x.height < h
-    omega
+  obtain ⟨_, _, hh, _, hins⟩ := startNewInstance_ok hs
+  have hlt := start_lt inv.top hs
   intro i hi hih hdec
   rw [hins, addNew_of_lt hlt] at hi
   obtain ⟨x, hx, rfl⟩ := List.mem_map.mp hi
   rw [hh] at hih
   rcases List.mem_cons.mp hx with rfl | hx
-  · -- the new instance is not decided
-    simp [newInst] at hdec
+  · simp [newInst] at hdec
   · have := hlt x (List.mem_of_mem_take hx)
     have h3 : (if x.height == h then x else { x with stopped := true }).height = x.height := stop_height h x
     rw [h3] at hih
@@ -58,9 +45,9 @@ theorem TInv.compact {c : Ctrl} {st : Store} (t : TInv c st) (h : Nat) : TInv (c
 theorem TInv.saveFound {c : Ctrl} {st : Store} {h : Nat} {m : Msg} (t : TInv c st) (hh : h ≤ c.height) :
     TInv c (saveFound c st h m) := by
   intro i hi hih hdec
-  rcases saveFound_highest c st h m with hu | ⟨hle, i', hf', hw⟩
+  rcases saveFound_highest c st h m with hu | ⟨hle, i', hf', _, hw⟩
   · rw [hu]; exact t i hi hih hdec
-  · exact ⟨_, hw, by show i'.height = c.height; rw [find_some_height hf']; omega⟩
+  · exact ⟨_, hw, by rw [recOf_height, find_some_height hf']; omega⟩
 
 theorem TInv.uponDecided {c : Ctrl} {st : Store} (inv : CInv c st) (t : TInv c st) (h : Nat) (m : Msg) :
     TInv (uponDecided c st h m).1 (uponDecided c st h m).2.1 := by
@@ -74,23 +61,7 @@ theorem TInv.uponDecided {c : Ctrl} {st : Store} (inv : CInv c st) (t : TInv c s
   · -- below the controller height: the instance at the height and the highest record are untouched
     have hhe : (if c.height < h then h else c.height) = c.height := by split <;> omega
     rw [hhe] at hih ⊢
-    have hi_old : i ∈ c.insts := by
-      cases hf : find c.insts h with
-      | some i0 =>
-        rcases decidedBranch_mem (st := st) (m := m) hf with ⟨h1, _, _⟩ | ⟨i', hi', h1, _⟩
-        · rw [h1] at hi; exact hi
-        · rw [h1] at hi
-          rcases mem_replaceInst hi with rfl | hi
-          · omega
-          · exact hi
-      | none =>
-        rcases decidedBranch_notmem (st := st) (m := m) hf with h1 | ⟨h1, _⟩
-        · rw [h1] at hi; exact hi
-        · rw [h1] at hi
-          rcases mem_addNew hi with rfl | hi
-          · have : (⟨h, m.round, true, false, [m]⟩ : Inst).height = h := rfl
-            omega
-          · exact hi
+    have hi_old : i ∈ c.insts := decidedBranch_mem_other inv.hist hi (by omega)
     obtain ⟨a, ha, hah⟩ := t i hi_old hih hdec
     refine ⟨a, ?_, hah⟩
     split
@@ -102,40 +73,29 @@ theorem TInv.uponDecided {c : Ctrl} {st : Store} (inv : CInv c st) (t : TInv c s
     have hge : c.height ≤ h := by omega
     have hhe : (if c.height < h then h else c.height) = h := by split <;> omega
     rw [hhe] at hih ⊢
-    cases hf : find c.insts h with
-    | some i0 =>
-      have hi0h := find_some_height hf
-      have hhc : h = c.height := by
-        have := inv.top.le i0 (find_some_mem hf); omega
-      rcases decidedBranch_mem (st := st) (m := m) hf with ⟨h1, h2, h3⟩ | ⟨i', hi', h1, h2, _⟩
-      · rw [h2]
-        simp only [Bool.false_eq_true, if_false]
-        obtain ⟨a, ha, hah⟩ := t i0 (find_some_mem hf) (by omega) h3
-        exact ⟨a, ha, by omega⟩
-      · rw [h2]
-        simp only [if_true]
-        have hfind : find (decidedBranch c st h m).1 h = some i' := by rw [h1]; exact find_replaceInst_same hf hi'
-        refine ⟨_, saveFound_writes (c := { c with insts := (decidedBranch c st h m).1, height := h }) hfind (Nat.le_refl _), ?_⟩
-        show i'.height = h
-        exact hi'
-    | none =>
-      rcases decidedBranch_notmem (st := st) (m := m) hf with h1 | ⟨h1, h2⟩
-      · rw [h1] at hi
-        exact absurd hih ((find_none_iff.mp hf) i hi)
-      · rw [h2]
-        simp only [if_true]
-        have hall : ∀ x ∈ c.insts, x.height < (⟨h, m.round, true, false, [m]⟩ : Inst).height := by
-          intro x hx
-          have h1 := inv.top.le x hx
-          have h2 := (find_none_iff.mp hf) x hx
-          show x.height < h
-          omega
-        have hfind : find (decidedBranch c st h m).1 h = some ⟨h, m.round, true, false, [m]⟩ := by
-          rw [h1, addNew_of_lt hall, find_cons]; simp
-        exact ⟨_, saveFound_writes (c := { c with insts := (decidedBranch c st h m).1, height := h }) hfind (Nat.le_refl _), rfl⟩
+    have hfindB : ∃ y, find (decidedBranch c st h m).1 h = some y := by
+      cases hfb : find (decidedBranch c st h m).1 h with
+      | none => exact absurd hih ((find_none_iff.mp hfb) i hi)
+      | some y => exact ⟨y, rfl⟩
+    obtain ⟨y, hy⟩ := hfindB
+    cases hs : (decidedBranch c st h m).2
+    · -- not saved: only when the in-memory instance was decided before and the message brings nothing new
+      simp only [Bool.false_eq_true, if_false]
+      cases hf : find c.insts h with
+      | none => have := (decidedBranch_notmem (m := m) inv.hist hf).1; rw [this] at hs; cases hs
+      | some i0 =>
+        have hhc : h = c.height := by
+          have := inv.top.le i0 (find_some_mem hf); have := find_some_height hf; omega
+        rcases decidedBranch_mem (st := st) (m := m) hf with ⟨_, _, h3⟩ | ⟨_, _, _, h2, _⟩
+        · obtain ⟨a, ha, hah⟩ := t i0 (find_some_mem hf) (by have := find_some_height hf; omega) h3
+          exact ⟨a, ha, by omega⟩
+        · rw [h2] at hs; cases hs
+    · simp only [if_true]
+      exact saveFound_stores (c := { c with insts := (decidedBranch c st h m).1, height := h }) hy (Nat.le_refl _)
+        (fun a ha => Nat.le_trans (inv.le a ha) hge)
 
 theorem TInv.processMsg {c : Ctrl} {st : Store} (inv : CInv c st) (t : TInv c st) (q h : Nat) (m : Msg) (ok : Bool) :
-    TInv (processMsg q c st h m ok).1 (processMsg q c st h m ok).2.1 := by
+    TInv (Heights.processMsg q c st h m ok).1 (Heights.processMsg q c st h m ok).2.1 := by
   rcases processMsg_cases q c st h m ok with he | ⟨_, _, he⟩
   · rw [he]; exact t
   · rw [he]; exact t.uponDecided inv h m
@@ -150,53 +110,489 @@ theorem TInv.load (st : Store) (full : Bool) : TInv (loadHighest (newCtrl full) 
     intro i _ _ _
     exact ⟨a, ha, h1.symm⟩
 
-def SInvT (s : State) : Prop := CInv s.c s.s ∧ TInv s.c s.s
-
-theorem SInvT.init (full : Bool) (q : Nat) : SInvT (init full q) :=
-  ⟨CInv.init full, by intro i hi; cases hi⟩
-
-/-- no op of the history is a decided message delivered during a store-write failure -/
-def NoStoreFail (ops : List Op) : Prop := ∀ op ∈ ops, ∀ h r root sg ok via, op ≠ .decidedSF h r root sg ok via
-
-theorem TInv.commits {s : State} (ci : CInv s.c s.s) (t : TInv s.c s.s) (root : Nat) (vc : Bool) :
-    TInv (commitsStep s root vc).1.c (commitsStep s root vc).1.s := by
-  rcases commitsStep_cases s root vc with ⟨h0, _⟩ | ⟨rh, i, _, hf, _, _, hc, hs⟩
+theorem TInv.commits {s : State} (ci : CInv s.c s.s) (t : TInv s.c s.s) (root : Nat) (vc : Bool)
+    (hnv : s.r.hasValue = false) : TInv (commitsStep s root vc).1.c (commitsStep s root vc).1.s := by
+  rcases commitsStep_cases s root vc with ⟨h0, _⟩ | ⟨rh, i, _, hf, _, _, _, hc, ⟨hv, _⟩ | ⟨_, hs⟩⟩
   · rw [h0]; exact t
+  · rw [hv] at hnv; cases hnv
   · rw [hc, hs]
     have hih := find_some_height hf
+    have hrh : rh ≤ s.c.height := hih ▸ ci.top.le i (find_some_mem hf)
     intro x hx hxh hxd
     have hxh' : x.height = s.c.height := hxh
     have hx' : x ∈ replaceInst { i with decided := true, commits := singles s.q root } s.c.insts := hx
     show ∃ a : Stored, _ ∧ a.inst.height = s.c.height
     rcases mem_replaceInst hx' with rfl | hxo
-    · -- the newly decided instance is AT the controller height: the save writes it as highest
-      have hrc : rh = s.c.height := by
+    · have hrc : rh = s.c.height := by
         have : ({ i with decided := true, commits := singles s.q root } : Inst).height = i.height := rfl
         omega
-      have hfind : find (replaceInst { i with decided := true, commits := singles s.q root } s.c.insts) rh =
-          some { i with decided := true, commits := singles s.q root } :=
+      have hfind : find (commitsCtrl s i root).insts rh = some { i with decided := true, commits := singles s.q root } :=
         find_replaceInst_same (i' := { i with decided := true, commits := singles s.q root }) hf hih
-      refine ⟨_, saveFound_writes
-        (c := { s.c with insts := replaceInst { i with decided := true, commits := singles s.q root } s.c.insts }) hfind
-        (by show s.c.height ≤ rh; omega), ?_⟩
-      show i.height = s.c.height
-      omega
+      obtain ⟨b, hb, hbh⟩ := saveFound_stores (st := s.s) (m := ⟨Gen.heights_FirstRound, root, List.range' 1 s.q⟩) hfind
+        (by rw [commitsCtrl_height]; omega) (fun a ha => by have := ci.le a ha; omega)
+      exact ⟨b, hb, by omega⟩
     · obtain ⟨a, ha, hah⟩ := t x hxo hxh' hxd
-      rcases saveFound_highest
-          { s.c with insts := replaceInst { i with decided := true, commits := singles s.q root } s.c.insts } s.s rh
-          ⟨Gen.heights_FirstRound, root, List.range' 1 s.q⟩ with hu | ⟨hle, i', hf', hw⟩
+      rcases saveFound_highest (commitsCtrl s i root) s.s rh ⟨Gen.heights_FirstRound, root, List.range' 1 s.q⟩
+        with hu | ⟨hle, i', hf', _, hw⟩
       · exact ⟨a, by rw [hu]; exact ha, hah⟩
       · refine ⟨_, hw, ?_⟩
-        show i'.height = s.c.height
-        have h1 := find_some_height hf'
+        rw [recOf_height, find_some_height hf']
         have h2 : s.c.height ≤ rh := hle
-        have h3 : rh ≤ s.c.height := hih ▸ ci.top.le i (find_some_mem hf)
         omega
+
+/-! ## a duty that holds a decided value has no fresh running instance (so `commits` never meets `hasValue`) -/
+
+theorem find_ins_other {x : Inst} {l : List Inst} {k : Nat} (hx : x.height ≠ k) : find (ins x l) k = find l k := by
+  induction l with
+  | nil => simp [ins, find_cons, hx, find_nil]
+  | cons y ys ih =>
+    unfold ins
+    split
+    · rw [find_cons]; simp [hx]
+    · rw [find_cons, find_cons, ih]
+
+theorem find_take {l : List Inst} {n k : Nat} {y : Inst} (h : find (l.take n) k = some y) : find l k = some y := by
+  induction l generalizing n with
+  | nil => simp [find_nil] at h
+  | cons x xs ih =>
+    cases n with
+    | zero => simp [find_nil] at h
+    | succ n =>
+      rw [List.take_succ_cons, find_cons] at h
+      rw [find_cons]
+      split
+      · rename_i hx; simpa [hx] using h
+      · rename_i hx; simp only [hx, if_false] at h; exact ih h
+
+theorem find_addNew_other {x : Inst} {l : List Inst} {k : Nat} {y : Inst} (hx : x.height ≠ k)
+    (h : find (addNew l x) k = some y) : find l k = some y := by
+  unfold addNew at h
+  rw [← find_ins_other hx]
+  exact find_take h
+
+theorem find_ins_self {x : Inst} {l : List Inst} (hl : find l x.height = none) : find (ins x l) x.height = some x := by
+  induction l with
+  | nil => simp [ins, find_cons]
+  | cons y ys ih =>
+    have hy : y.height ≠ x.height := (find_none_iff.mp hl) y (by simp)
+    rw [find_cons] at hl
+    simp only [hy, if_false] at hl
+    unfold ins
+    split
+    · rw [find_cons]; simp
+    · rw [find_cons]; simp only [hy, if_false]; exact ih hl
+
+theorem find_addNew_self {x : Inst} {l : List Inst} {y : Inst} (hl : find l x.height = none)
+    (h : find (addNew l x) x.height = some y) : y = x := by
+  unfold addNew at h
+  have := find_take h
+  rw [find_ins_self hl] at this
+  cases this; rfl
+
+/-- after the branch: the (first) instance of the message's height in the container is decided -/
+theorem branch_find_at {c : Ctrl} {st : Store} {h : Nat} {m : Msg} (hok : HistOk st.hist) {y : Inst}
+    (hy : find (decidedBranch c st h m).1 h = some y) : y.decided = true := by
+  cases hf : find c.insts h with
+  | some i =>
+    rcases decidedBranch_mem (st := st) (m := m) hf with ⟨h1, _, hd⟩ | ⟨i', hi', h1, _, hd⟩
+    · rw [h1, hf] at hy; cases hy; exact hd
+    · rw [h1, find_replaceInst_same hf hi'] at hy; cases hy; exact hd
+  | none =>
+    obtain ⟨_, x, hx, ⟨h1, hdx⟩ | ⟨i', hi', hd, h1⟩⟩ := decidedBranch_notmem (m := m) hok hf
+    · rw [h1] at hy
+      rcases hdx with hdx | hdx
+      · have := find_addNew_self (by rw [hx]; exact hf) (by rw [hx]; exact hy)
+        rw [this]; exact hdx
+      · rw [hy] at hdx; cases hdx
+    · rw [h1] at hy
+      cases hfa : find (addNew c.insts x) h with
+      | none =>
+        rw [replaceInst_of_none (by rw [hi']; exact hfa), hfa] at hy; cases hy
+      | some z =>
+        rw [find_replaceInst_same hfa hi'] at hy; cases hy; exact hd
+
+/-- … and for every other height the (first) instance is the one that was there before -/
+theorem branch_find_other {c : Ctrl} {st : Store} {h : Nat} {m : Msg} (hok : HistOk st.hist) {k : Nat} {y : Inst}
+    (hk : k ≠ h) (hy : find (decidedBranch c st h m).1 k = some y) : find c.insts k = some y := by
+  cases hf : find c.insts h with
+  | some i =>
+    rcases decidedBranch_mem (st := st) (m := m) hf with ⟨h1, _, _⟩ | ⟨i', hi', h1, _, _⟩
+    · rw [h1] at hy; exact hy
+    · rw [h1, find_replaceInst_other (by omega)] at hy; exact hy
+  | none =>
+    obtain ⟨_, x, hx, ⟨h1, _⟩ | ⟨i', hi', _, h1⟩⟩ := decidedBranch_notmem (m := m) hok hf
+    · rw [h1] at hy; exact find_addNew_other (by omega) hy
+    · rw [h1, find_replaceInst_other (by omega)] at hy; exact find_addNew_other (by omega) hy
+
+/-- runner/controller link: the running height is the duty slot; a duty that holds a decided value sits at or below
+    the controller height with its instance present when at it, and its running instance (if in the container) is decided -/
+structure RInv (s : State) : Prop where
+  run : ∀ rh, s.r.running = some rh → s.r.duty = some rh
+  val : s.r.hasValue = true → ∃ d, s.r.running = some d ∧ d ≤ s.c.height ∧ (d = s.c.height → AtTop s.c)
+  dec : s.r.hasValue = true → ∀ rh i, s.r.running = some rh → find s.c.insts rh = some i → i.decided = true
+
+theorem RInv.init (full : Bool) (q : Nat) : RInv (Heights.init full q) where
+  run := by intro rh h; cases h
+  val := by intro h; cases h
+  dec := by intro h; cases h
+
+/-- a runner without a running instance and without a decided value -/
+theorem RInv.of_fresh {s : State} (hr : s.r.running = none) (hv : s.r.hasValue = false) : RInv s where
+  run := by intro rh h; rw [hr] at h; cases h
+  val := by intro h; rw [hv] at h; cases h
+  dec := by intro h; rw [hv] at h; cases h
+
+theorem syncRun_fields (r : Runner) (c : Ctrl) :
+    (syncRun r c).duty = r.duty ∧ (syncRun r c).running = r.running ∧ (syncRun r c).hasValue = r.hasValue := by
+  unfold syncRun
+  cases hr : r.running with
+  | none => exact ⟨rfl, hr, rfl⟩
+  | some h =>
+    simp only
+    cases find c.insts h
+    · exact ⟨rfl, hr, rfl⟩
+    · exact ⟨rfl, rfl, rfl⟩
+
+/-- compaction keeps which instance `find` returns, up to trimming -/
+theorem compact_find {c : Ctrl} {h rh : Nat} {i : Inst} (hf : find (compactAt c h).insts rh = some i) :
+    ∃ i0, find c.insts rh = some i0 ∧ i.decided = i0.decided := by
+  unfold compactAt at hf
+  cases hfh : find c.insts h with
+  | none => rw [hfh] at hf; exact ⟨i, hf, rfl⟩
+  | some i0 =>
+    rw [hfh] at hf
+    simp only at hf
+    by_cases hrh : rh = h
+    · subst hrh
+      rw [find_replaceInst_same hfh (by rw [trim_height]; exact find_some_height hfh)] at hf
+      cases hf
+      exact ⟨i0, hfh, rfl⟩
+    · rw [find_replaceInst_other (by rw [trim_height, find_some_height hfh]; omega)] at hf
+      exact ⟨i, hf, rfl⟩
+
+/-- controller after `ProcessMsg`, optionally compacted at the message height -/
+def afterMsg (s : State) (h : Nat) (m : Msg) (ok : Bool) (cmp : Bool) : Ctrl :=
+  if cmp then compactAt (processMsg s.q s.c s.s h m ok).1 h else (processMsg s.q s.c s.s h m ok).1
+
+theorem afterMsg_height (s : State) (h : Nat) (m : Msg) (ok cmp : Bool) :
+    (afterMsg s h m ok cmp).height = (processMsg s.q s.c s.s h m ok).1.height := by
+  unfold afterMsg; cases cmp <;> simp [compactAt_height]
+
+/-- the `val` / `dec` facts of a duty that ALREADY holds a value survive a decided message -/
+theorem RInv.afterMsg_keep {s : State} (ci : CInv s.c s.s) (ri : RInv s) (h : Nat) (m : Msg) (ok cmp : Bool)
+    (hv : s.r.hasValue = true) :
+    (∃ d, s.r.running = some d ∧ d ≤ (afterMsg s h m ok cmp).height ∧
+        (d = (afterMsg s h m ok cmp).height → AtTop (afterMsg s h m ok cmp))) ∧
+    (∀ rh i, s.r.running = some rh → find (afterMsg s h m ok cmp).insts rh = some i → i.decided = true) := by
+  have base : (∃ d, s.r.running = some d ∧ d ≤ (processMsg s.q s.c s.s h m ok).1.height ∧
+        (d = (processMsg s.q s.c s.s h m ok).1.height → AtTop (processMsg s.q s.c s.s h m ok).1)) ∧
+      (∀ rh i, s.r.running = some rh → find (processMsg s.q s.c s.s h m ok).1.insts rh = some i → i.decided = true) := by
+    rcases processMsg_cases s.q s.c s.s h m ok with he | ⟨_, _, he⟩
+    · rw [he]; exact ⟨ri.val hv, ri.dec hv⟩
+    · rw [he]
+      refine ⟨?_, ?_⟩
+      · obtain ⟨d, hr, hd, hat⟩ := ri.val hv
+        have hge := (uponDecided_height_ge s.c s.s h m).2
+        refine ⟨d, hr, by omega, ?_⟩
+        intro hde
+        by_cases hch : s.c.height ≤ h
+        · exact uponDecided_atTop ci.top ci.hist h m (Or.inl hch)
+        · have : (uponDecided s.c s.s h m).1.height = s.c.height := by
+            have he2 := uponDecided_eq s.c s.s h m
+            simp only at he2
+            rw [he2]; simp only; split <;> omega
+          exact uponDecided_atTop ci.top ci.hist h m (Or.inr (hat (by omega)))
+      · intro rh i hr hf
+        rw [uponDecided_insts] at hf
+        by_cases hrh : rh = h
+        · subst hrh; exact branch_find_at ci.hist hf
+        · exact ri.dec hv rh i hr (branch_find_other ci.hist hrh hf)
+  unfold afterMsg
+  cases cmp
+  · simpa using base
+  · simp only [if_true]
+    refine ⟨?_, ?_⟩
+    · obtain ⟨d, hr, hd, hat⟩ := base.1
+      exact ⟨d, hr, by rw [compactAt_height]; exact hd,
+        fun hde => compact_atTop h (hat (by rw [compactAt_height] at hde; exact hde))⟩
+    · intro rh i hr hf
+      obtain ⟨i0, hf0, hd0⟩ := compact_find hf
+      rw [hd0]; exact base.2 rh i0 hr hf0
+
+/-- … and are established when the runner takes the decided value of a valid decided message for its running height -/
+theorem RInv.afterMsg_new {s : State} (ci : CInv s.c s.s) (h : Nat) (m : Msg) (ok cmp : Bool)
+    (hnew : (processMsg s.q s.c s.s h m ok).2.2 = .new) :
+    h ≤ (afterMsg s h m ok cmp).height ∧ (h = (afterMsg s h m ok cmp).height → AtTop (afterMsg s h m ok cmp)) ∧
+    (∀ i, find (afterMsg s h m ok cmp).insts h = some i → i.decided = true) := by
+  obtain ⟨_, he, hle⟩ := new_valid hnew
+  have base : (h = (processMsg s.q s.c s.s h m ok).1.height → AtTop (processMsg s.q s.c s.s h m ok).1) ∧
+      (∀ i, find (processMsg s.q s.c s.s h m ok).1.insts h = some i → i.decided = true) := by
+    rw [he]
+    refine ⟨?_, ?_⟩
+    · intro hh
+      have := (uponDecided_height_ge s.c s.s h m).2
+      exact uponDecided_atTop ci.top ci.hist h m (Or.inl (by omega))
+    · intro i hf
+      rw [uponDecided_insts] at hf
+      exact branch_find_at ci.hist hf
+  refine ⟨by rw [afterMsg_height]; exact hle, ?_, ?_⟩
+  · intro hh
+    rw [afterMsg_height] at hh
+    unfold afterMsg
+    cases cmp
+    · simpa using base.1 hh
+    · simp only [if_true]; exact compact_atTop h (base.1 hh)
+  · intro i hf
+    unfold afterMsg at hf
+    cases cmp
+    · exact base.2 i (by simpa using hf)
+    · simp only [if_true] at hf
+      obtain ⟨i0, hf0, hd0⟩ := compact_find hf
+      rw [hd0]; exact base.2 i0 hf0
+
+theorem runnerSaves_running {r : Runner} {h : Nat} {o : DOut} (hsv : runnerSaves r h o = true) : r.running = some h := by
+  unfold runnerSaves at hsv
+  simp only [Bool.and_eq_true] at hsv
+  simpa using hsv.1.2
+
+theorem beginStep_r (s : State) (slot : Nat) :
+    (beginStep s slot).1 = s ∨
+    ((beginStep s slot).1.c = s.c ∧ (beginStep s slot).1.s = s.s ∧ (beginStep s slot).1.r.duty = some slot ∧
+      (beginStep s slot).1.r.running = none ∧ (beginStep s slot).1.r.hasValue = false) := by
+  unfold beginStep
+  split
+  · left; rfl
+  · right; exact ⟨rfl, rfl, rfl, rfl, rfl⟩
+
+theorem decideStep_r (s : State) (slot : Nat) :
+    (decideStep s slot).1 = s ∨
+    (∃ c', startNewInstance s.c slot = .ok c' ∧ (decideStep s slot).1.c = c' ∧ (decideStep s slot).1.r.duty = s.r.duty ∧
+      (decideStep s slot).1.r.running = some slot ∧ (decideStep s slot).1.r.hasValue = s.r.hasValue) := by
+  unfold decideStep
+  cases hs : startNewInstance s.c slot with
+  | error e => left; rfl
+  | ok c' => right; exact ⟨c', rfl, rfl, rfl, rfl, rfl⟩
+
+/-- `decide` for the duty slot: a duty that holds a value cannot start its instance again -/
+theorem RInv.decideStep {s : State} (ci : CInv s.c s.s) (ri : RInv s) (slot : Nat) (hd : s.r.duty = some slot) :
+    RInv (Heights.decideStep s slot).1 := by
+  rcases decideStep_r s slot with h0 | ⟨c', hst, _, hdu, hru, hva⟩
+  · rw [h0]; exact ri
+  · obtain ⟨hle, hnone, _⟩ := startNewInstance_ok hst
+    have hnv : s.r.hasValue = false := by
+      cases hv : s.r.hasValue
+      · rfl
+      · obtain ⟨d, hr, hdle, hat⟩ := ri.val hv
+        have := ri.run d hr
+        rw [hd] at this
+        cases this
+        have hat' := hat (by omega)
+        unfold AtTop at hat'
+        have hc : s.c.height = slot := by omega
+        rw [hc, hnone] at hat'
+        cases hat'
+    refine ⟨?_, ?_, ?_⟩
+    · intro rh hr; rw [hru] at hr; cases hr; rw [hdu]; exact hd
+    · intro hv; rw [hva, hnv] at hv; cases hv
+    · intro hv; rw [hva, hnv] at hv; cases hv
+
+theorem RInv.step {s : State} (ci : SInv s) (ri : RInv s) (op : Op) : RInv (Heights.step s op).1 := by
+  unfold SInv at ci
+  cases op with
+  | start slot =>
+    rw [step_start_eq]
+    split
+    · rcases beginStep_r s slot with h0 | ⟨hc, hs, hdu, hru, hva⟩
+      · -- cannot be: ok means the state changed? (it may coincide); handle generally through the fields
+        rename_i hok
+        have := (beginStep_ok hok).2
+        have ri1 : RInv (beginStep s slot).1 := by rw [h0]; exact ri
+        exact RInv.decideStep (by rw [h0]; exact ci) ri1 slot this
+      · have ri1 : RInv (beginStep s slot).1 :=
+          RInv.of_fresh hru hva
+        exact RInv.decideStep (by rw [hc, hs]; exact ci) ri1 slot hdu
+    · rcases beginStep_r s slot with h0 | ⟨_, _, _, hru, hva⟩
+      · rw [h0]; exact ri
+      · exact RInv.of_fresh hru hva
+  | begin slot =>
+    show RInv (beginStep s slot).1
+    rcases beginStep_r s slot with h0 | ⟨_, _, _, hru, hva⟩
+    · rw [h0]; exact ri
+    · exact RInv.of_fresh hru hva
+  | decide =>
+    rw [step_decide_eq]
+    cases hd : s.r.duty with
+    | none => exact ri
+    | some slot => exact RInv.decideStep ci ri slot hd
+  | decided h r root sg ok via =>
+    cases via
+    · -- via the controller: runner fields unchanged
+      show RInv (decidedViaCtrl s h ⟨r, root, sg⟩ ok).1
+      unfold decidedViaCtrl
+      simp only
+      obtain ⟨f1, f2, f3⟩ := syncRun_fields s.r (processMsg s.q s.c s.s h ⟨r, root, sg⟩ ok).1
+      refine ⟨by simp only [f1, f2]; exact ri.run, ?_, ?_⟩
+      · intro hv
+        simp only [f3] at hv
+        have := (RInv.afterMsg_keep ci ri h ⟨r, root, sg⟩ ok false hv).1
+        simpa [afterMsg, f2] using this
+      · intro hv
+        simp only [f3] at hv
+        have := (RInv.afterMsg_keep ci ri h ⟨r, root, sg⟩ ok false hv).2
+        simpa [afterMsg, f2] using this
+    · show RInv (decidedViaRunner s h ⟨r, root, sg⟩ ok).1
+      unfold decidedViaRunner
+      simp only
+      have hcm : (if s.q ≤ sg.length then compactAt (processMsg s.q s.c s.s h ⟨r, root, sg⟩ ok).1 h
+          else (processMsg s.q s.c s.s h ⟨r, root, sg⟩ ok).1) = afterMsg s h ⟨r, root, sg⟩ ok (decide (s.q ≤ sg.length)) := by
+        unfold afterMsg; by_cases hq : s.q ≤ sg.length <;> simp [hq]
+      rw [hcm]
+      obtain ⟨f1, f2, f3⟩ := syncRun_fields s.r (afterMsg s h ⟨r, root, sg⟩ ok (decide (s.q ≤ sg.length)))
+      cases hsv : runnerSaves s.r h (processMsg s.q s.c s.s h ⟨r, root, sg⟩ ok).2.2
+      · simp only [Bool.false_eq_true, if_false]
+        refine ⟨by simp only [f1, f2]; exact ri.run, ?_, ?_⟩
+        · intro hv
+          simp only [f3] at hv
+          simpa [f2] using (RInv.afterMsg_keep ci ri h ⟨r, root, sg⟩ ok _ hv).1
+        · intro hv
+          simp only [f3] at hv
+          simpa [f2] using (RInv.afterMsg_keep ci ri h ⟨r, root, sg⟩ ok _ hv).2
+      · simp only [if_true]
+        have hrun := runnerSaves_running hsv
+        obtain ⟨g1, g2, g3⟩ := RInv.afterMsg_new ci h ⟨r, root, sg⟩ ok (decide (s.q ≤ sg.length)) (runnerSaves_new hsv)
+        refine ⟨by simp only [f1, f2]; exact ri.run, ?_, ?_⟩
+        · intro _
+          exact ⟨h, by simp only [f2]; exact hrun, g1, g2⟩
+        · intro _ rh i hr hf
+          simp only [f2] at hr
+          rw [hrun] at hr; cases hr
+          exact g3 i hf
+  | decidedSF h r root sg ok via =>
+    cases via
+    · show RInv (decidedViaCtrlSF s h ⟨r, root, sg⟩ ok).1
+      unfold decidedViaCtrlSF
+      simp only
+      obtain ⟨f1, f2, f3⟩ := syncRun_fields s.r (processMsg s.q s.c s.s h ⟨r, root, sg⟩ ok).1
+      refine ⟨by simp only [f1, f2]; exact ri.run, ?_, ?_⟩
+      · intro hv
+        simp only [f3] at hv
+        have := (RInv.afterMsg_keep ci ri h ⟨r, root, sg⟩ ok false hv).1
+        simpa [afterMsg, f2] using this
+      · intro hv
+        simp only [f3] at hv
+        have := (RInv.afterMsg_keep ci ri h ⟨r, root, sg⟩ ok false hv).2
+        simpa [afterMsg, f2] using this
+    · show RInv (decidedViaRunnerSF s h ⟨r, root, sg⟩ ok).1
+      unfold decidedViaRunnerSF
+      simp only
+      have hcm : (if s.q ≤ sg.length then compactAt (processMsg s.q s.c s.s h ⟨r, root, sg⟩ ok).1 h
+          else (processMsg s.q s.c s.s h ⟨r, root, sg⟩ ok).1) = afterMsg s h ⟨r, root, sg⟩ ok (decide (s.q ≤ sg.length)) := by
+        unfold afterMsg; by_cases hq : s.q ≤ sg.length <;> simp [hq]
+      rw [hcm]
+      obtain ⟨f1, f2, f3⟩ := syncRun_fields s.r (afterMsg s h ⟨r, root, sg⟩ ok (decide (s.q ≤ sg.length)))
+      cases hsv : runnerSaves s.r h (processMsg s.q s.c s.s h ⟨r, root, sg⟩ ok).2.2
+      · simp only [Bool.false_eq_true, if_false]
+        refine ⟨by simp only [f1, f2]; exact ri.run, ?_, ?_⟩
+        · intro hv
+          simp only [f3] at hv
+          simpa [f2] using (RInv.afterMsg_keep ci ri h ⟨r, root, sg⟩ ok _ hv).1
+        · intro hv
+          simp only [f3] at hv
+          simpa [f2] using (RInv.afterMsg_keep ci ri h ⟨r, root, sg⟩ ok _ hv).2
+      · simp only [if_true]
+        have hrun := runnerSaves_running hsv
+        obtain ⟨g1, g2, g3⟩ := RInv.afterMsg_new ci h ⟨r, root, sg⟩ ok (decide (s.q ≤ sg.length)) (runnerSaves_new hsv)
+        refine ⟨by simp only [f1, f2]; exact ri.run, ?_, ?_⟩
+        · intro _
+          exact ⟨h, by simp only [f2]; exact hrun, g1, g2⟩
+        · intro _ rh i hr hf
+          simp only [f2] at hr
+          rw [hrun] at hr; cases hr
+          exact g3 i hf
+  | commits root vc =>
+    show RInv (commitsStep s root vc).1
+    unfold commitsStep
+    cases hd : s.r.duty with
+    | none => exact ri
+    | some d =>
+      cases hr : s.r.running with
+      | none => exact ri
+      | some rh =>
+        simp only
+        cases hf : find s.c.insts rh with
+        | none => exact ri
+        | some i =>
+          simp only
+          split
+          · -- applicable: the running instance becomes decided in place
+            have hih := find_some_height hf
+            have hfind : find (replaceInst { i with decided := true, commits := singles s.q root } s.c.insts) rh =
+                some { i with decided := true, commits := singles s.q root } :=
+              find_replaceInst_same (i' := { i with decided := true, commits := singles s.q root }) hf hih
+            obtain ⟨f1, f2, f3⟩ := syncRun_fields s.r
+              { s.c with insts := replaceInst { i with decided := true, commits := singles s.q root } s.c.insts }
+            have hrle : rh ≤ s.c.height := hih ▸ ci.top.le i (find_some_mem hf)
+            have hat : rh = s.c.height →
+                AtTop { s.c with insts := replaceInst { i with decided := true, commits := singles s.q root } s.c.insts } := by
+              intro hh
+              unfold AtTop
+              show (find (replaceInst _ s.c.insts) s.c.height).isSome = true
+              rw [← hh, hfind]; rfl
+            have hrun' : ∀ rh', s.r.running = some rh' → s.r.duty = some rh' := ri.run
+            split
+            · refine ⟨by simp only [f1, f2]; exact ri.run, ?_, ?_⟩
+              · intro _; exact ⟨rh, by simp only [f2]; exact hr, hrle, hat⟩
+              · intro _ rh' y hr' hy
+                simp only [f2] at hr'
+                rw [hr] at hr'; cases hr'
+                have hy' : find (replaceInst { i with decided := true, commits := singles s.q root } s.c.insts) rh = some y := hy
+                rw [hfind] at hy'; cases hy'; rfl
+            · refine ⟨by simp only [f1, f2]; exact ri.run, ?_, ?_⟩
+              · intro _; exact ⟨rh, by simp only [f2]; exact hr, hrle, hat⟩
+              · intro _ rh' y hr' hy
+                simp only [f2] at hr'
+                rw [hr] at hr'; cases hr'
+                have hy' : find (replaceInst { i with decided := true, commits := singles s.q root } s.c.insts) rh = some y := hy
+                rw [hfind] at hy'; cases hy'; rfl
+          · exact ri
+  | compact h =>
+    show RInv { s with c := compactAt s.c h, r := syncRun s.r (compactAt s.c h) }
+    obtain ⟨f1, f2, f3⟩ := syncRun_fields s.r (compactAt s.c h)
+    refine ⟨by simp only [f1, f2]; exact ri.run, ?_, ?_⟩
+    · intro hv
+      simp only [f3] at hv
+      obtain ⟨d, hr, hd, hat⟩ := ri.val hv
+      exact ⟨d, by simp only [f2]; exact hr, by show d ≤ (compactAt s.c h).height; rw [compactAt_height]; exact hd,
+        fun hde => compact_atTop h (hat (by
+          have : d = (compactAt s.c h).height := hde
+          rw [compactAt_height] at this; exact this))⟩
+    · intro hv rh i hr hf
+      simp only [f3] at hv
+      simp only [f2] at hr
+      obtain ⟨i0, hf0, hd0⟩ := compact_find (c := s.c) hf
+      rw [hd0]; exact ri.dec hv rh i0 hr hf0
+  | restart f =>
+    show RInv (restartStep s f).1
+    unfold restartStep
+    simp only
+    split
+    · exact RInv.of_fresh rfl rfl
+    · exact RInv.of_fresh rfl rfl
+
+/-! ## all invariants together -/
+
+structure SInvT (s : State) : Prop where
+  c : CInv s.c s.s
+  t : TInv s.c s.s
+  r : RInv s
+
+theorem SInvT.init (full : Bool) (q : Nat) : SInvT (Heights.init full q) :=
+  ⟨CInv.init full, (by intro i hi; cases hi), RInv.init full q⟩
 
 theorem SInvT.step {s : State} (inv : SInvT s) (op : Op)
     (hnf : ∀ h r root sg ok via, op ≠ .decidedSF h r root sg ok via) : SInvT (Heights.step s op).1 := by
-  refine ⟨SInv.step inv.1 op, ?_⟩
-  obtain ⟨ci, t⟩ := inv
+  refine ⟨SInv.step inv.c op, ?_, RInv.step inv.c inv.r op⟩
+  obtain ⟨ci, t, ri⟩ := inv
   rcases step_cs s op with ⟨hc, hs⟩ | ⟨slot, c', hst, hc, hs⟩ | ⟨h, m, ok, hc, hs⟩ | ⟨h, m, ok, hc, hs⟩ |
     ⟨h, m, ok, hop, _, _⟩ | ⟨h, m, ok, hop, _, _⟩ | ⟨root, vc, hc, hs⟩ | ⟨h, hc, hs⟩ | ⟨full, _, hc, hs⟩
   · rw [hc, hs]; exact t
@@ -214,19 +610,22 @@ theorem SInvT.step {s : State} (inv : SInvT s) (op : Op)
     cases hsv : runnerSaves s.r h (processMsg s.q s.c s.s h m ok).2.2
     · simpa using hc2
     · simp only [if_true]
-      have hnew : (processMsg s.q s.c s.s h m ok).2.2 = .new := by
-        unfold runnerSaves at hsv
-        simp only [Bool.and_eq_true] at hsv
-        simpa using hsv.1.1.1
-      rcases processMsg_cases s.q s.c s.s h m ok with he | ⟨_, hq, he⟩
-      · rw [he] at hnew; cases hnew
-      · apply hc2.saveFound
-        simp only [hq, if_true, compactAt_height]
-        rw [he]
-        exact (uponDecided_height_ge s.c s.s h m).1
+      obtain ⟨hq, _, hle⟩ := new_valid (runnerSaves_new hsv)
+      apply hc2.saveFound
+      simp only [hq, if_true, compactAt_height]
+      exact hle
   · exact absurd hop (hnf _ _ _ _ _ _)
   · exact absurd hop (hnf _ _ _ _ _ _)
-  · rw [hc, hs]; exact TInv.commits ci t root vc
+  · rw [hc, hs]
+    -- `commits` is applicable only to a fresh (undecided) running instance: the duty holds no value then
+    rcases commitsStep_cases s root vc with ⟨h0, _⟩ | ⟨rh, i, hr, hf, hnd, _, _, _, _⟩
+    · rw [h0]; exact t
+    · have hnv : s.r.hasValue = false := by
+        cases hv : s.r.hasValue
+        · rfl
+        · have := ri.dec hv rh i hr hf
+          rw [hnd] at this; cases this
+      exact TInv.commits ci t root vc hnv
   · rw [hc, hs]; exact t.compact h
   · rw [hc, hs]; exact TInv.load s.s full
 
@@ -239,76 +638,52 @@ theorem SInvT.reach (full : Bool) (q : Nat) (ops : List Op) (hnf : NoStoreFail o
     intro s hs
     exact ih (fun o ho => hnf o (List.mem_cons_of_mem _ ho)) _ (hs.step op (hnf op (by simp)))
 
-/-- a valid decided message at or above the controller height becomes (or already is) the stored highest, unless its
-    instance is only reloaded from storage (full node, not in memory, in the historical store) -/
+/-- a valid decided message at or above the controller height becomes (or already is) the stored highest — on full
+    and light nodes alike -/
 theorem top_decided_stored {s : State} (inv : SInvT s) (h r root : Nat) (sg : List Nat) (via : Bool)
-    (hq : s.q ≤ sg.length) (hge : s.c.height ≤ h)
-    (hnr : s.c.full = false ∨ (find s.c.insts h).isSome = true ∨ histGet s.s.hist h = none) :
+    (hq : s.q ≤ sg.length) (hge : s.c.height ≤ h) :
     ∃ b, (Heights.step s (.decided h r root sg true via)).1.s.highest = some b ∧ b.inst.height = h := by
-  obtain ⟨ci, t⟩ := inv
+  -- the state after the step satisfies TInv and has the decided instance of height h AT the controller height
+  have hnf : ∀ h' r' root' sg' ok' via', Op.decided h r root sg true via ≠ .decidedSF h' r' root' sg' ok' via' := by
+    intros; intro he; cases he
+  have inv' := inv.step (.decided h r root sg true via) hnf
   have hpm : processMsg s.q s.c s.s h ⟨r, root, sg⟩ true = uponDecided s.c s.s h ⟨r, root, sg⟩ := by
     unfold processMsg
     have : ¬ sg.length < s.q := by omega
     simp [this]
-  -- after UponDecided the highest record has height h
-  have hud : ∃ b, (uponDecided s.c s.s h ⟨r, root, sg⟩).2.1.highest = some b ∧ b.inst.height = h := by
+  have hheight : (uponDecided s.c s.s h ⟨r, root, sg⟩).1.height = h := by
     have he := uponDecided_eq s.c s.s h ⟨r, root, sg⟩
     simp only at he
-    rw [he]
-    simp only
-    have hhe : (if s.c.height < h then h else s.c.height) = h := by split <;> omega
-    rw [hhe]
-    cases hf : find s.c.insts h with
-    | some i0 =>
-      have hhc : h = s.c.height := by
-        have := ci.top.le i0 (find_some_mem hf); have := find_some_height hf; omega
-      rcases decidedBranch_mem (st := s.s) (m := ⟨r, root, sg⟩) hf with ⟨_, h2, h3⟩ | ⟨i', hi', h1, h2, _⟩
-      · rw [h2]
-        simp only [Bool.false_eq_true, if_false]
-        obtain ⟨a, ha, hah⟩ := t i0 (find_some_mem hf) (by have := find_some_height hf; omega) h3
-        exact ⟨a, ha, by omega⟩
-      · rw [h2]
-        simp only [if_true]
-        have hfind : find (decidedBranch s.c s.s h ⟨r, root, sg⟩).1 h = some i' := by rw [h1]; exact find_replaceInst_same hf hi'
-        exact ⟨_, saveFound_writes (c := { s.c with insts := (decidedBranch s.c s.s h ⟨r, root, sg⟩).1, height := h }) hfind
-          (Nat.le_refl _), hi'⟩
-    | none =>
-      have hnone : instanceForHeight s.c s.s h = none := by
-        rcases hnr with hl | hm | hh
-        · exact instanceForHeight_light hl hf
-        · rw [hf] at hm; cases hm
-        · unfold instanceForHeight; rw [hf, hh]; simp
-      have hbr : decidedBranch s.c s.s h ⟨r, root, sg⟩ = (addNew s.c.insts ⟨h, r, true, false, [⟨r, root, sg⟩]⟩, true) := by
-        unfold decidedBranch; rw [hnone]
-      rw [hbr]
-      simp only [if_true]
-      have hall : ∀ x ∈ s.c.insts, x.height < (⟨h, r, true, false, [⟨r, root, sg⟩]⟩ : Inst).height := by
-        intro x hx
-        have h1 := ci.top.le x hx
-        have h2 := (find_none_iff.mp hf) x hx
-        show x.height < h
-        omega
-      have hfind : find (addNew s.c.insts ⟨h, r, true, false, [⟨r, root, sg⟩]⟩) h = some ⟨h, r, true, false, [⟨r, root, sg⟩]⟩ := by
-        rw [addNew_of_lt hall, find_cons]; simp
-      exact ⟨_, saveFound_writes (c := { s.c with insts := addNew s.c.insts ⟨h, r, true, false, [⟨r, root, sg⟩]⟩, height := h })
-        hfind (Nat.le_refl _), rfl⟩
-  cases via
-  · show ∃ b, (decidedViaCtrl s h ⟨r, root, sg⟩ true).1.s.highest = some b ∧ _
-    unfold decidedViaCtrl
-    simp only
-    rw [hpm]; exact hud
-  · show ∃ b, (decidedViaRunner s h ⟨r, root, sg⟩ true).1.s.highest = some b ∧ _
-    unfold decidedViaRunner
-    simp only
-    rw [hpm]
-    simp only [hq, if_true]
-    split
-    · obtain ⟨b, hb, hbh⟩ := hud
-      rcases saveFound_highest (compactAt (uponDecided s.c s.s h ⟨r, root, sg⟩).1 h)
-          (uponDecided s.c s.s h ⟨r, root, sg⟩).2.1 h ⟨r, root, sg⟩ with hu | ⟨_, i', hf', hw⟩
-      · exact ⟨b, by rw [hu]; exact hb, hbh⟩
-      · exact ⟨_, hw, (find_some_height hf' : i'.height = h)⟩
-    · exact hud
+    rw [he]; simp only; split <;> omega
+  have hat : AtTop (uponDecided s.c s.s h ⟨r, root, sg⟩).1 := uponDecided_atTop inv.c.top inv.c.hist h _ (Or.inl hge)
+  -- controller after the step: height h, instance of height h present (and decided)
+  have hc' : (Heights.step s (.decided h r root sg true via)).1.c.height = h ∧
+      ∃ y, find (Heights.step s (.decided h r root sg true via)).1.c.insts h = some y ∧ y.decided = true := by
+    have hy0 : ∃ y, find (uponDecided s.c s.s h ⟨r, root, sg⟩).1.insts h = some y ∧ y.decided = true := by
+      unfold AtTop at hat
+      rw [hheight] at hat
+      cases hf : find (uponDecided s.c s.s h ⟨r, root, sg⟩).1.insts h with
+      | none => rw [hf] at hat; cases hat
+      | some y =>
+        refine ⟨y, rfl, ?_⟩
+        rw [uponDecided_insts] at hf
+        exact branch_find_at inv.c.hist hf
+    rcases step_decided_c s h r root sg true via with hc | hc
+    · rw [hc, hpm]; exact ⟨hheight, hy0⟩
+    · rw [hc, hpm, compactAt_height]
+      refine ⟨hheight, ?_⟩
+      obtain ⟨y, hy, hyd⟩ := hy0
+      have : (find (compactAt (uponDecided s.c s.s h ⟨r, root, sg⟩).1 h).insts h).isSome = true := by
+        rw [compact_find_isSome, hy]; rfl
+      cases hf : find (compactAt (uponDecided s.c s.s h ⟨r, root, sg⟩).1 h).insts h with
+      | none => rw [hf] at this; cases this
+      | some z =>
+        obtain ⟨i0, hf0, hd0⟩ := compact_find hf
+        rw [hy] at hf0; cases hf0
+        exact ⟨z, rfl, by rw [hd0]; exact hyd⟩
+  obtain ⟨hh, y, hy, hyd⟩ := hc'
+  obtain ⟨a, ha, hah⟩ := inv'.t y (find_some_mem hy) (by rw [hh]; exact find_some_height hy) hyd
+  exact ⟨a, ha, by rw [hah, hh]⟩
 
 theorem run_q (s : State) (ops : List Op) : (Heights.run s ops).q = s.q := by
   induction ops generalizing s with
